@@ -72,7 +72,8 @@ impl Dimensionality {
     /// Like `pow`, but returns None if a power doesn't fit in an i64.
     pub fn checked_pow(mut self, exp: i64) -> Option<Dimensionality> {
         for (_, power) in self.dims.iter_mut() {
-            *power = power.checked_mul(exp)?;
+            // i64::MIN is excluded as well, so that a power can always be negated
+            *power = power.checked_mul(exp).filter(|p| *p != i64::MIN)?;
         }
         Some(self)
     }
@@ -83,7 +84,9 @@ impl Dimensionality {
             .dims
             .iter()
             .any(|(unit, power)| match rhs.dims.get(unit) {
-                Some(other) => power.checked_add(*other).is_none(),
+                Some(other) => power
+                    .checked_add(*other)
+                    .map_or(true, |sum| sum == i64::MIN),
                 None => false,
             });
         if overflow {
